@@ -1,11 +1,13 @@
 package prop
 
 import (
+	"encoding/json"
 	"fmt"
 	"math/big"
 	"time"
 
 	sdkmath "cosmossdk.io/math"
+	"github.com/cosmos/cosmos-sdk/codec"
 	sdk "github.com/cosmos/cosmos-sdk/types"
 	authtypes "github.com/cosmos/cosmos-sdk/x/auth/types"
 	banktypes "github.com/cosmos/cosmos-sdk/x/bank/types"
@@ -1155,3 +1157,37 @@ func (d *csDirector) checkResponseCoin(tx *rig.TxRecord, keyBase, field, denom s
 		d.run.Violation(keyBase+":response-differs-from-minted", map[string]any{"msgs": msgBrief(tx.Msgs)}, "response reports %s minted, supply of %s changed by %s", got, denom, amt)
 	}
 }
+
+// coinswapWorkload exposes the coinswap director's intents as a Workload for multi-module chains.
+type coinswapWorkload struct {
+	d *csDirector
+}
+
+func newCoinswapWorkload() *coinswapWorkload { return &coinswapWorkload{} }
+
+func (w *coinswapWorkload) Name() string                                        { return "coinswap" }
+func (w *coinswapWorkload) Genesis(codec.Codec, map[string]json.RawMessage) {}
+func (w *coinswapWorkload) Attach(run *ev.Run, r *rig.Rig) {
+	w.d = &csDirector{run: run, r: r, mode: "none", denoms: []string{"tka", "tkb", "tkc"}, std: rig.BondDenom, feeCfg: "default"}
+}
+
+func (w *coinswapWorkload) Next(block int) []rig.Tx {
+	d := w.d
+	d.touched = map[string]bool{}
+	saved := d.r.Snapshot
+	// the director reads state through its own snapshot function
+	d.r.Snapshot = func(ctx sdk.Context) any {
+		return &csSnap{Bal: d.r.AllBalances(ctx), Supply: d.r.Supplies(ctx), Params: d.r.K.Coinswap.GetParams(ctx), Pools: d.r.K.Coinswap.GetAllPools(ctx), Std: d.r.K.Coinswap.GetStandardDenom(ctx), Time: ctx.BlockTime()}
+	}
+	defer func() { d.r.Snapshot = saved }()
+	var out []rig.Tx
+	n := d.run.Rng.Intn(3)
+	for i := 0; i < n; i++ {
+		if tx, ok := d.intent(100, block); ok {
+			out = append(out, tx)
+		}
+	}
+	return out
+}
+
+func (w *coinswapWorkload) Observe(br *rig.BlockRecord) {}
